@@ -152,3 +152,41 @@ package engine
 //@   requires (len(a) == 0 || len(a) == 8) && (len(b) == 0 || len(b) == 8)
 //@   ensures result2 == nil && result3 == nil && result0 == result1 && result0 == counterVal(a) + counterVal(b)
 //@   modifies *
+
+//@ property C20
+// ---- the pebble cursor adapter must implement the abstract cursor contract above ----
+// (github.com/cockroachdb/pebble is trusted with its documented positioning: SeekGE = first key >= k,
+//  SeekLT = last key < k; keys strictly increasing: pkord)
+//@ spec pkord(pi *pebble.Iterator, a int) float64
+//@ spec pitOK(pi *pebble.Iterator) bool = pi != nil && ghost(n, pi) >= 0 && -1 <= ghost(pos, pi) && ghost(pos, pi) <= ghost(n, pi) && (forall a int, b int :: 0 <= a && a < b && b < ghost(n, pi) ==> pkord(pi, a) < pkord(pi, b))
+//@ extern (*github.com/cockroachdb/pebble.Iterator).SeekGE func(pi *pebble.Iterator, key []byte) bool
+//@   ensures 0 <= ghost(pos, pi) && ghost(pos, pi) <= ghost(n, pi)
+//@   ensures forall a int :: 0 <= a && a < ghost(pos, pi) ==> pkord(pi, a) < ord(key)
+//@   ensures ghost(pos, pi) < ghost(n, pi) ==> pkord(pi, ghost(pos, pi)) >= ord(key)
+//@   ensures result <==> ghost(pos, pi) < ghost(n, pi)
+//@   modifies ghost(pos, pi)
+//@ extern (*github.com/cockroachdb/pebble.Iterator).SeekLT func(pi *pebble.Iterator, key []byte) bool
+//@   ensures -1 <= ghost(pos, pi) && ghost(pos, pi) < ghost(n, pi)
+//@   ensures forall a int :: ghost(pos, pi) < a && a < ghost(n, pi) ==> pkord(pi, a) >= ord(key)
+//@   ensures ghost(pos, pi) >= 0 ==> pkord(pi, ghost(pos, pi)) < ord(key)
+//@   ensures result <==> ghost(pos, pi) >= 0
+//@   modifies ghost(pos, pi)
+//@ extern (*github.com/cockroachdb/pebble.Iterator).Key func(pi *pebble.Iterator) []byte
+//@   requires 0 <= ghost(pos, pi) && ghost(pos, pi) < ghost(n, pi)
+//@   ensures ord(result) == pkord(pi, ghost(pos, pi))
+//@ extern (*github.com/cockroachdb/pebble.Iterator).Valid func(pi *pebble.Iterator) bool
+//@   ensures result <==> (0 <= ghost(pos, pi) && ghost(pos, pi) < ghost(n, pi))
+
+// Seek: first key >= k.  SeekForPrev: LAST KEY <= k (a key equal to k must not be skipped)
+//@ func (it *pebbleIterator) Seek(key []byte)
+//@   requires it != nil && pitOK(it.Iterator)
+//@   ensures 0 <= ghost(pos, it.Iterator) && ghost(pos, it.Iterator) <= ghost(n, it.Iterator)
+//@   ensures forall a int :: 0 <= a && a < ghost(pos, it.Iterator) ==> pkord(it.Iterator, a) < ord(key)
+//@   ensures ghost(pos, it.Iterator) < ghost(n, it.Iterator) ==> pkord(it.Iterator, ghost(pos, it.Iterator)) >= ord(key)
+//@   modifies ghost(pos, it.Iterator)
+//@ func (it *pebbleIterator) SeekForPrev(key []byte)
+//@   requires it != nil && pitOK(it.Iterator)
+//@   ensures -1 <= ghost(pos, it.Iterator) && ghost(pos, it.Iterator) < ghost(n, it.Iterator)
+//@   ensures forall a int :: ghost(pos, it.Iterator) < a && a < ghost(n, it.Iterator) ==> pkord(it.Iterator, a) > ord(key)
+//@   ensures ghost(pos, it.Iterator) >= 0 ==> pkord(it.Iterator, ghost(pos, it.Iterator)) <= ord(key)
+//@   modifies ghost(pos, it.Iterator)
